@@ -123,6 +123,14 @@ impl C08 {
         letters.push("use-db t x wrong".to_string());
         letters.push("set-permissions bob rwix $$*".to_string());
         letters.push("create-user eve e1".to_string());
+        // listing / watching patterns with stars on both sides of a `$$` text (how a pattern is classified and
+        // what it is compared with are two different places in the code)
+        for pat in ["*$$*", "*$$user*", "*$$secret*", "**$$*", "*$*", "$*$*", "*secret*", "*$$"] {
+            letters.push(format!("keys {}", pat));
+            letters.push(format!("ls {}", pat));
+            letters.push(format!("watch {}", pat));
+            letters.push(format!("rp 5 keys {}", pat));
+        }
         // entries of the conflict queue that name a `$$` key, written by the session itself (the queue's keys
         // start with one `$`, so any session may write them); the resolve lines of the alphabet carry id 5
         letters.push("set $conflicts_$$secret_5 waiting".to_string());
